@@ -428,7 +428,10 @@ func TestC16(t *testing.T) {
 				}
 				h := rapid.SampledFrom(c16Hostile).Draw(rt, "h")
 				if !s.isKey && strings.HasSuffix(s.parent.Vals[s.idx].Path, ".cron") && rapid.Bool().Draw(rt, "cronish") {
-					h = rapid.SampledFrom([]string{"@foo\nbar", "@every 1h\nx", "TZ=a\nb 0 0 * * *", "0 0 * * *\n", "*/x\n * * * *", "0 0\r\n* * *"}).Draw(rt, "hc")
+					// every kind of cron error (descriptor, time zone, field count, field syntax) with every kind of white space / line break echoed from the value
+					h = rapid.SampledFrom([]string{"@foo", "@every 1h", "@daily", "TZ=a", "CRON_TZ=Asia", "TZ=", "0 0 * * *", "*/x", "0 0", ""}).Draw(rt, "hc") +
+						rapid.SampledFrom([]string{"\n", "\r", "\r\n", "\n\r", "\t", "\v", "\f", "\u0085", "\u2028", " \r ", "\r\r"}).Draw(rt, "hsep") +
+						rapid.SampledFrom([]string{"bar", "b 0 0 * * *", "* * *", "", " * * * *", "x\ry"}).Draw(rt, "htail")
 				}
 				form := rapid.IntRange(0, 3).Draw(rt, "form")
 				v := h
